@@ -262,14 +262,20 @@ Definition chk_661 (a o : list (list N)) : bool :=
   let extra := pairs_of (skipn 3 a) in
   let reserved := existsb (fun kv => is_reserved (fst kv)) extra in
   match o with
-  | [h; outcome; reqframe; ch; cr; port] =>
+  | [h; outcome; reqframe; ch; cr; port; post; post_reason] =>
       if reserved then list_eqb outcome [4]
       else
         let authority := loopback_prefix ++ show_dec (nth 0 port 0) in
         let req := fold_left (fun m kv => hinsert (fst kv) (snd kv) m) extra (request_new authority client_path) in
         list_eqb reqframe (qpack_encode (sorted_headers req)) &&
         match client_response resp t with
-        | CSession => list_eqb outcome [0; 0]
+        | CSession => list_eqb outcome [0; 0] &&
+            (* the established session continues on the bytes behind the response *)
+            match client_established_run resp t with
+            | RAppClosed c rs => list_eqb post [1; c] && list_eqb post_reason rs
+            | RClose e => list_eqb post [2; ecode_idx e]
+            | _ => list_eqb post PENDING
+            end
         | CSessionRejected => list_eqb outcome [1]
         | CLocalH3 e => list_eqb outcome [2; 2; ecode_idx e] && list_eqb ch [1; to_code e]
         | CNoConnection => list_eqb outcome [2; 3]
